@@ -135,6 +135,48 @@ Fixpoint exec_segs_t (c : @chain FX) (segs : list (@loadexpr FX * list (@sop FX)
       | r => r
       end
   end.
+(** the grid instant at which the model raised, when it raised while computing an instant of a run (attribution only: if gearpy
+    recorded ANOTHER time at that index, the disagreement is about the time axis, not about what raised) *)
+Fixpoint loop_ft (c : @chain FX) load ctl (stop : option (@stopcond FX)) (J dt : fqty) (ts : list fqty) (st : @sys FX) : option fqty :=
+  match ts with
+  | [] => None
+  | t :: ts' =>
+      match (v <- integrate (y_live st) dt ;; record_instant c load ctl J t v st (Some dt)) with
+      | Err _ => Some t
+      | Ok (st1, s) =>
+          match (match stop with Some sc => stop_check sc s | None => Ok false end) with
+          | Ok false => loop_ft c load ctl stop J dt ts' st1
+          | _ => None
+          end
+      end
+  end.
+Definition run_ft (c : @chain FX) load ctl stop (dt T : fqty) (st : @sys FX) : option fqty :=
+  match run_pre c load ctl dt T st with
+  | Err _ => None
+  | Ok (J, t0, st0, n) => loop_ft c load ctl stop J dt (grid_from (qv t0) (qv dt) (qu dt) 1 (Z.to_nat n)) st0
+  end.
+Fixpoint exec_ft (c : @chain FX) load (ops : list (@sop FX)) (st : @sys FX) : option fqty * option (@sys FX) :=   (* (time, state if all ran) *)
+  match ops with
+  | [] => (None, Some st)
+  | o :: ops' =>
+      match o with
+      | SRun dt T ctl stop =>
+          match run_p c load ctl stop dt T st with
+          | (st1, None) => exec_ft c load ops' st1
+          | (_, Some _) => (run_ft c load ctl stop dt T st, None)
+          end
+      | _ => match step_op c load st o with Ok st1 => exec_ft c load ops' st1 | Err _ => (None, None) end
+      end
+  end.
+Fixpoint exec_segs_ft (c : @chain FX) (segs : list (@loadexpr FX * list (@sop FX))) (st : @sys FX) : option fqty :=
+  match segs with
+  | [] => None
+  | (l, ops) :: segs' =>
+      match exec_ft c (eval_load l) ops st with
+      | (_, Some st1) => exec_segs_ft c segs' st1
+      | (t, None) => t
+      end
+  end.
 (** first differing field over the instants both sides have *)
 Fixpoint rows_code_common (z : scales) (h : hist) (rs : list row) (i : N) : N * N :=
   match h, rs with
@@ -176,7 +218,13 @@ Definition case_code (k : scase) : N * N :=
               if Nat.eqb nh np && exn_eqb x e' then (0, 0)%N else (12, 0)%N
           | Some x, EHist _ _ =>                      (* the model raised, gearpy returned *)
               let ci := if Nat.leb nh np then rows_code_common (k_scales k) cur mine 0 else (0, 0)%N in
-              if negb (N.eqb (fst ci) 0) then ci else (14, exn_code x)%N
+              if negb (N.eqb (fst ci) 0) then ci else
+              (* gearpy recorded the instant at which the model raised: at the same time? *)
+              match (if Nat.leb nh np then nth_error mine (length cur) else None),
+                    exec_segs_ft (k_chain k) ((k_load k, k_ops k) :: k_more k) (initial (k_pos0 k) (k_spd0 k)) with
+              | Some r, Some t => if fu_eqb t (r_time r) then (14, exn_code x)%N else (1%N, N.of_nat (length cur))
+              | _, _ => (14, exn_code x)%N
+              end
           end
       end
   end.
